@@ -83,6 +83,10 @@ pub struct TextSpec {
     /// #ifdef / #ifndef on its own macro and on the macro of file `a` (macros do not cross file
     /// boundaries in this implementation, so the latter is a region that must stay disabled)
     pub pp: bool,
+    /// filler declarations (a large file: tens of kilobytes) and additional faults (many
+    /// diagnostics) - size thresholds are a classic blind spot of small generated inputs
+    pub bulk: usize,
+    pub extra_faults: usize,
     /// trailing blanks and a comment after statements (trivia after the last token)
     pub trail: bool,
     /// the text does not end with a line break
@@ -155,6 +159,12 @@ impl TextSpec {
         }
         if let Some(u) = &self.template_use {
             s.push_str(&format!("def DT_{k}_{u} : T_{u}<3>;{e}"));
+        }
+        for i in 0..self.bulk {
+            s.push_str(&format!("def B_{k}_{i} : K_{k} {{ let x = {i}; }}{e}"));
+        }
+        for i in 0..self.extra_faults {
+            s.push_str(&format!("def EX_{}_{i} : UX_{}_{i};{e}", self.fault_id, self.fault_id));
         }
         if self.fault.is_some() && self.joined {
             // replace the last line break by blanks of the same length
@@ -306,6 +316,8 @@ pub fn gen_text(rng: &mut Rng, vs: &mut Versions, key: &str, includable: &[&str]
         trail: rng.chance(1, 5),
         no_final_eol: rng.chance(1, 5),
         pp: cfg.eol == Eol::Lf && rng.chance(1, 3),
+        bulk: if rng.chance(1, 60) { rng.range(100, 700) } else { 0 },
+        extra_faults: if cfg.allow_faults && rng.chance(1, 40) { rng.range(10, 60) } else { 0 },
     }
 }
 
@@ -463,8 +475,10 @@ fn includable<'a>(keys: &'a [&'a str], key: &str) -> Vec<&'a str> {
 /// `live` (C08): bursts of opens/changes with every request kind, cancels, no-op
 /// notifications and disk events at any time; contents are never judged.
 pub fn gen_live(rng: &mut Rng, small_k: bool) -> Scenario {
-    let n_files = rng.range(1, 3);
-    let all = ["a", "b", "c", "d"];
+    // now and then many documents (a size threshold may hide a bug from small workspaces)
+    let many = rng.chance(1, 20);
+    let n_files = if many { rng.range(6, 10) } else { rng.range(1, 3) };
+    let all = ["a", "b", "c", "g", "h", "i", "j", "k", "l", "m", "d"];
     let use_inc_dir = rng.chance(1, 4);
     let mut keys: Vec<&str> = all[..n_files].to_vec();
     if use_inc_dir {
@@ -480,7 +494,7 @@ pub fn gen_live(rng: &mut Rng, small_k: bool) -> Scenario {
         b.specs.insert(k.to_string(), spec);
     }
     let disk0 = b.disk.clone();
-    let n_ops = rng.range(3, 12);
+    let n_ops = if many || rng.chance(1, 20) { rng.range(15, 40) } else { rng.range(3, 12) };
     let docs: Vec<&str> = keys.iter().filter(|k| **k != "d").copied().collect();
     let mut n_requests = 0usize;
     while b.ops.len() < n_ops {
@@ -628,8 +642,9 @@ fn count_requests(ops: &[Op]) -> usize {
 /// files at Sync points; the editor saves on every change, so disk == editor.
 pub fn gen_converge(rng: &mut Rng) -> Scenario {
     let use_inc_dir = rng.chance(1, 4);
-    let n_docs = rng.range(2, 3);
-    let all = ["a", "b", "c"];
+    let many = rng.chance(1, 20);
+    let n_docs = if many { rng.range(5, 9) } else { rng.range(2, 3) };
+    let all = ["a", "b", "c", "g", "h", "i", "j", "k", "l"];
     let mut keys: Vec<&str> = all[..n_docs].to_vec();
     // "e": a file that is never opened in the editor, only included
     keys.push("e");
@@ -646,7 +661,7 @@ pub fn gen_converge(rng: &mut Rng) -> Scenario {
     }
     let disk0 = b.disk.clone();
     let paced = rng.chance(1, 3);
-    let n_notifs = rng.range(2, 7);
+    let n_notifs = if many { rng.range(8, 20) } else { rng.range(2, 7) };
     for i in 0..n_notifs {
         if !b.open.is_empty() && rng.chance(1, 8) {
             let paths: Vec<String> = b.open.keys().cloned().collect();
